@@ -31,9 +31,29 @@ func NewDisconnectMessage() *DisconnectMessage {
 	return msg
 }
 
+// Len returns the byte length of the message.
+func (m *DisconnectMessage) Len() int {
+	if !m.dirty {
+		return len(m.dbuf)
+	}
+
+	return m.header.Len()
+}
+
 // Decode decodes the message.
 func (m *DisconnectMessage) Decode(src []byte) (int, error) {
-	return m.header.decode(src)
+	n, err := m.header.decode(src)
+	if err != nil {
+		return n, err
+	}
+
+	// Keep the accepted bytes, as the other message types do: an unmodified decoded
+	// message re-encodes to exactly what was decoded, even if the remaining length
+	// was not encoded in its shortest form.
+	m.dbuf = src[:n]
+	m.dirty = false
+
+	return n, nil
 }
 
 // Encode encodes the message.
